@@ -129,7 +129,7 @@ def run(ctx):
                 uid = rng.choice([0, 0, 1000])
                 cmds = conversation(rng, allowed)
                 obs = authdrv.converse(d.path, home, uid, cmds)
-                recs.append({'k': 'auth', 'allowed': allowed, 'sockUid': uid, 'serverUid': 0, 'cmds': obs})
+                recs.append({'k': 'auth', 'allowed': allowed, 'sockUid': uid, 'serverUid': 0, 'sockGids': [2, uid] if uid != 0 else [], 'cmds': obs})
                 texts.append('%s uid=%d: ' % ('+'.join(allowed), uid) + ' ; '.join(
                     '%s%s%s' % (c['c'], (' ' + c['mech']) if c['mech'] else '', (' ' + (c['respkind'] or c['who'])) if c['hex'] != 'none' else '') for c in cmds))
         finally:
